@@ -168,11 +168,15 @@ let run_oracles (case : string) (out : string) (kind : string) (peqb : 'p -> 'p 
   end
 
 
-(* ---- ground-truth oracle: the case line says who is on the bus.  In a clean case (no lost and no
-   other replies) let K be the probe index of the last population change; once the application's
-   own sweep has wrapped three times after K (two FULL sweeps lie between the first and the third
-   wrap) the station set must be exactly the final population minus the own address.  This does
-   not depend on the order in which the application sweeps. *)
+(* ---- ground-truth oracle: the case line says who is on the bus, as a function of TIME: script
+   entry k takes effect at transmit_telegram call 2k whatever the application does.  One address
+   sweep is `sweep_polls` = 252 calls - C18_sweep_covers proves that the application probes every
+   address 0..125 within any 252 consecutive calls, whatever HighPrioOnly says (it is ignored, O4).
+   In a clean case (nothing lost, no other replies) let 2K be the call of the last population
+   change: if at least two sweeps' worth of calls (504) follow, the station set at the end must be
+   exactly the final population minus the own address.  This depends neither on the order in which
+   the application sweeps nor on whether it probed anything at all - an application that is given
+   the calls and does not probe fails here. *)
 let rec bits_of_pos (p : positive) (i : int) (acc : int list) : int list =
   match p with
   | XH -> i :: acc
@@ -180,45 +184,43 @@ let rec bits_of_pos (p : positive) (i : int) (acc : int list) : int list =
   | XI q -> bits_of_pos q (i + 1) (i :: acc)
 let bits_of_z (x : z) : int list = match x with Zpos p -> List.sort compare (bits_of_pos p 0 []) | _ -> []
 
-let ground_truth (case : string) (out : string) (kind : string) (ts : int) (pop : string) (script : string)
+let ground_truth (case : string) (out : string) (kind : string) (ts : int) (hp : string) (pop : string) (script : string)
     (abs : 'p apoll list) : unit =
   let entries = if script = "-" then [] else String.split_on_char ',' script in
+  let npolls = List.length abs in
   if List.exists (fun e -> String.contains e '!') entries then count ("truth:skipped-dirty:" ^ kind)
   else if not (no_other abs) then count ("truth:skipped-other-replies:" ^ kind)
   else begin
     let popl = ref (if pop = "-" then [] else
       List.map (fun e -> int_of_string (List.hd (String.split_on_char '=' e))) (String.split_on_char ',' pop)) in
-    let last_change = ref (-1) in
-    List.iter (fun e ->
+    (* (k, appear?, address) in the order the harness applies them: by call, then by position *)
+    let parsed = List.map (fun e ->
       if String.contains e '+' then begin
         let i = String.index e '+' in
-        let k = int_of_string (String.sub e 0 i) in
         let rest = String.sub e (i + 1) (String.length e - i - 1) in
-        let a = int_of_string (List.hd (String.split_on_char '=' rest)) in
-        last_change := max !last_change k;
-        if not (List.mem a !popl) then popl := a :: !popl
-      end else if String.contains e '-' then begin
+        (int_of_string (String.sub e 0 i), true, int_of_string (List.hd (String.split_on_char '=' rest)))
+      end else begin
         let i = String.index e '-' in
-        let k = int_of_string (String.sub e 0 i) in
-        let a = int_of_string (String.sub e (i + 1) (String.length e - i - 1)) in
+        (int_of_string (String.sub e 0 i), false, int_of_string (String.sub e (i + 1) (String.length e - i - 1)))
+      end) entries in
+    let parsed = List.stable_sort (fun (k1, _, _) (k2, _, _) -> compare k1 k2) parsed in
+    let last_change = ref 0 in
+    List.iter (fun (k, appear, a) ->
+      if 2 * k < npolls then begin
         last_change := max !last_change k;
-        popl := List.filter (fun x -> x <> a) !popl
-      end) entries;
-    (* script entries are applied in probe order by the harness; recompute in that order *)
-    let probes = List.filter_map (fun p -> match p.ap_da with Some a -> Some (int_of_z a) | None -> None) abs in
-    let rec wraps i prev l acc = match l with
-      | [] -> acc
-      | a :: r -> let acc' = (match prev with Some b when i > !last_change && a <= b -> acc + 1 | _ -> acc) in
-                  wraps (i + 1) (Some a) r acc' in
-    let w = wraps 0 None probes 0 in
-    if w >= 3 then begin
-      count ("truth:checked:" ^ kind);
+        if appear then (if not (List.mem a !popl) then popl := a :: !popl)
+        else popl := List.filter (fun x -> x <> a) !popl
+      end) parsed;
+    if npolls - 2 * !last_change >= 2 * int_of_nat sweep_polls then begin
+      count (Printf.sprintf "truth:checked:%s:hp%s" kind hp);
       let expect = List.sort compare (List.filter (fun a -> a <> ts) (List.sort_uniq compare !popl)) in
+      if expect <> [] then count ("truth:checked-nonempty:" ^ kind);
       let final = (match List.rev abs with p :: _ -> bits_of_z p.ap_bits | [] -> []) in
       if final <> expect then
         report_fail "C18" "converges_to_population" case
-          (Printf.sprintf "expected {%s} got {%s}" (String.concat "," (List.map string_of_int expect))
-             (String.concat "," (List.map string_of_int final)))
+          (Printf.sprintf "expected {%s} got {%s} after %d calls, population fixed since call %d"
+             (String.concat "," (List.map string_of_int expect))
+             (String.concat "," (List.map string_of_int final)) npolls (2 * !last_change))
     end else count ("truth:too-short:" ^ kind)
   end
 
@@ -281,7 +283,7 @@ let first_diff (a : string) (b : string) : string =
 let handle (case : string) (out : string) : unit =
   incr n_cases;
   match split_ws case with
-  | ["SCAN"; ts; kind; _hp; _npolls; pop_s; script_s] ->
+  | ["SCAN"; ts; kind; hp_s; _npolls; pop_s; script_s] ->
       let tsz = zi (int_of_string ts) in
       if canon_panic out <> out || contains out "PANIC" then begin
         count ("scan:impl-panic:" ^ kind);
@@ -297,7 +299,7 @@ let handle (case : string) (out : string) : unit =
          | Panic _ -> report_diverge "C18" case (short out) "PANIC"
          | OutOfFuel -> report_diverge "C18" case (short out) "OUTOFFUEL");
         run_oracles case out "L" resp_state_eqb true false (List.map ll_abs itr);
-        ground_truth case out "L" (int_of_string ts) pop_s script_s (List.map ll_abs itr)
+        ground_truth case out "L" (int_of_string ts) hp_s pop_s script_s (List.map ll_abs itr)
       end else begin
         let (itr, replies) = parse_transcript sc_ev_of_string out in
         count ("scan:S:" ^ (if List.length itr >= 504 then "long" else "short"));
@@ -308,7 +310,7 @@ let handle (case : string) (out : string) : unit =
          | Panic _ -> report_diverge "C18" case (short out) "PANIC"
          | OutOfFuel -> report_diverge "C18" case (short out) "OUTOFFUEL");
         run_oracles case out "S" sc_pay_eqb false true (List.map sc_abs itr);
-        ground_truth case out "S" (int_of_string ts) pop_s script_s (List.map sc_abs itr)
+        ground_truth case out "S" (int_of_string ts) hp_s pop_s script_s (List.map sc_abs itr)
       end
   | ["RAW"; ts; kind; ops] ->
       let m = raw_model kind (zi (int_of_string ts)) (String.split_on_char ',' ops) in
